@@ -8,7 +8,7 @@ from .. import cellsdrv as CD, geoworlds as GW, tlc
 
 ID = "C15"
 TITLE = "Geometry export round-trips every cell with its indexes"
-MC = {"quick": [("MC_Export", "MC_Export.cfg", 4)], "thorough": [("MC_Export", "MC_Export.cfg", 8)]}
+MC = {"quick": [("MC_Export", "MC_Export.cfg", 4)], "thorough": [("MC_Export", "MC_Export_thorough.cfg", 16)]}
 TRACE = ("Trace_Cells", "Trace_Cells.cfg")
 REQUIRED = ["Export", "via-cli", "fmt-geojson", "fmt-shapefile", "fmt-wkt", "fmt-wkb", "holes",
             "cf1d", "cf2d", "shoc_simple", "shoc_standard", "arakawa", "ugrid"]
